@@ -4130,19 +4130,21 @@ cpdef Function _c_compose(
     cdef DdRef *vector
     vector = <DdRef *> PyMem_Malloc(
         n_cudd_vars * sizeof(DdRef))
-    for var in zdd.vars:
-        i = zdd._index_of_var[var]
-        if var in dvars:
-            g = dvars[var]
-        else:
-            g = zdd.var(var)
-        cuddRef(g.node)
-        if g.ref <= 0:
-            raise AssertionError((var, g.ref))
-        vector[i] = g.node
+    for i in range(n_cudd_vars):
+        vector[i] = NULL
     # compose
     r = NULL
     try:
+        for var in zdd.vars:
+            i = zdd._index_of_var[var]
+            if var in dvars:
+                g = dvars[var]
+            else:
+                g = zdd.var(var)
+            cuddRef(g.node)
+            vector[i] = g.node
+            if g.ref <= 0:
+                raise AssertionError((var, g.ref))
         r = _compose_root(mgr, u.node, vector)
     finally:
         if r is not NULL:
@@ -4150,7 +4152,8 @@ cpdef Function _c_compose(
             if r.ref <= 0:
                 raise AssertionError(r.ref)
         for i in range(n_cudd_vars):
-            Cudd_RecursiveDerefZdd(mgr, vector[i])
+            if vector[i] is not NULL:
+                Cudd_RecursiveDerefZdd(mgr, vector[i])
         if r is not NULL:
             cuddDeref(r)
         PyMem_Free(vector)
